@@ -113,6 +113,8 @@ def extra_encodings():
     for cc in range(16):
         E.append(bytes([0x0F, 0x90 + cc, 0xC0]))
         E.append(bytes([0x48, 0x0F, 0x40 + cc, 0xC1]))
+        E.append(bytes([0x0F, 0x40 + cc, 0xC1]))          # 32-bit form: the upper half is cleared even when not taken
+        E.append(bytes([0x66, 0x0F, 0x40 + cc, 0xC1]))    # 16-bit form: the upper bits are kept
     # adc/sbb/add/sub/cmp/and/or/xor reg,reg in four sizes; inc/dec/neg/not; mul/imul/div
     for opc in (0x00, 0x08, 0x10, 0x18, 0x20, 0x28, 0x30, 0x38):
         for pre, o in ((b"", opc), (b"\x66", opc + 1), (b"", opc + 1), (b"\x48", opc + 1)):
